@@ -1203,7 +1203,7 @@ impl Prop for C13 {
         ]
     }
     fn cases(&self, tier: Tier) -> u32 {
-        tier.pick(1000, 20_000)
+        tier.pick(2000, 20_000)
     }
     fn min_nontrivial(&self, tier: Tier) -> usize {
         tier.pick(500, 5000)
